@@ -41,7 +41,7 @@ T = {
 'C18-B': ('C18', "rollover to an unregistered node is refused after the seal writes were applied", "rollover whose new leader has no UpsertNode while another node has", [('C18','quick','c18.*')], ''),
 'C20-A': ('C20', "Metadata caches its last snapshot bytes; the successful RolloverTopic arm returns before the cache is cleared", "snapshot, then only rollovers, then snapshot again on the same instance", [('C20','quick','c20.snapshot_transfer_differs / c20.restore_differs')], 'missed until C20 built several snapshots per history and observed state through the read accessors instead of snapshot()'),
 'C20-B': ('C20', "build_snapshot takes the application bytes before the adapter's read lock", "snapshot build overlapping an apply batch", [('C20','quick','c20.snapshot_transfer_differs')], 'missed until snapshot builds raced with apply batches (stream of entries that is not always ready, real executor)'),
-'C21-A': ('C21', "WalLogStore::append skips the WAL record of an entry the in-memory log already holds", "a WAL write that fails in the middle of an append, the same entries appended again on the same store, restart", [], 'MISSED: osim has no I/O fault plane (the vendored engine copy under octopii/src/wal/wal carries no hooks); kill points are operation boundaries only'),
+'C21-A': ('C21', "WalLogStore::append skips the WAL record of an entry the in-memory log already holds", "a WAL write that fails in the middle of an append, the same entries appended again on the same store, restart", [('C21','quick','c21.log_store_state')], 'missed until C21 injected a full disk (RLIMIT_FSIZE) around an append followed by a retry - which first exposed, on the unchanged tree, that the vendored engine copy acknowledged appends it could not store (fixed: b825b53)'),
 'C21-B': ('C21', "load_peer_addr_records keeps the first record per peer (entry().or_insert)", "a peer recorded with two addresses, restart", [('C21','quick','c21.peer_records')], 'missed until the peer address book was exercised through the real functions of node.rs (cut out by build.rs)'),
 'C22-A': ('C22', "read_one_for_topic tests 'sealed?' against live metadata after the read instead of the state read before it", "GET through a non-owner node; the filling PUT and the rollover land between the empty read and the check", [('C22','quick','c22.*')], ''),
 'C22-B': ('C22', "maybe_rollover proposes sealed_segment_entry_count = limit instead of the tracked count", "the rollover proposal of the PUT that reaches the limit fails, the next PUT overshoots", [], 'MISSED: the symptom (sealed count below the number of entries written, entry never delivered) carries exactly the fingerprint of the listed C22 finding (count captured while appends were still accepted), so it is printed as KNOWN-FINDING; telling the two apart needs the count the node computed, which only a hook on that very expression would give'),
